@@ -18,6 +18,7 @@ import TantivyModel.Proofs.FieldSerializer
 import TantivyModel.Proofs.VInt32Source
 import TantivyModel.Proofs.BlockCursorSeek
 import TantivyModel.Proofs.RemapPermuted
+import TantivyModel.Proofs.SegmentEndToEnd
 /-!
 # C07 — The inverted index records exactly the terms, documents, frequencies, positions
 
@@ -555,6 +556,48 @@ theorem C07_field_serializer (ts : List Recorder.TermBytes)
   refine ⟨hg, _, C07_terminfo_roundtrip _ (by decide) _ hg n (by rw [hlen]; exact hn), ?_⟩
   exact FieldSerializer.slice_writeTerms ts n hn
 
+/-- **From the corpus to the files and back through the term ordinal.**  Index the analysed corpus
+(recorders), serialize the terms of the table in byte order through the `FieldSerializer`
+(`serialize_postings`: postings and positions appended back to back, one `TermInfo` per term into
+the `TermInfoStore`).  Then for the `n`-th term of the specification (the term dictionary maps the
+`n`-th term in byte order to ordinal `n`): the store returns a `TermInfo` whose `doc_freq` is the
+spec's, whose byte ranges cut out of the two files bytes that read back (`WithFreqsAndPositions`,
+eager decoder) as exactly the spec's postings of that term under the record option, and on whose
+postings range the lazy block cursor drains to exactly the spec's docs. -/
+theorem C07_segment_end_to_end (o : RecOpt) (c : Corpus) (G : Recorder.GoodCorpus c)
+    (h1 : ((FieldSerializer.segmentTerms o c).flatMap (·.postings)).length < 2 ^ 56)
+    (h2 : ((FieldSerializer.segmentTerms o c).flatMap (·.positions)).length < 2 ^ 56)
+    (n : Nat) (hn : n < (invert c).terms.length) :
+    ∃ i, TermInfoStore.get TermInfoStore.BLOCK_LEN
+        (TermInfoStore.write TermInfoStore.BLOCK_LEN (FieldSerializer.segmentFiles o c).infos) n = some i ∧
+      i.docFreq = docFreq ((invert c).terms[n]).2 ∧
+      Recorder.readBack o (FieldSerializer.sliceTerm (FieldSerializer.segmentFiles o c) i) =
+        some (((invert c).terms[n]).2.map (project o)) ∧
+      (BlockPostings.drain cfg (i.docFreq / cfg.B + 2) (BlockPostings.open cfg o o i.docFreq
+        (FieldSerializer.sliceTerm (FieldSerializer.segmentFiles o c) i).postings)).1 =
+        ((invert c).terms[n]).2.map (·.doc) := by
+  have hlen : (FieldSerializer.segmentTerms o c).length = (invert c).terms.length :=
+    FieldSerializer.segmentTerms_length o c
+  have hn' : n < (termsOf Gen.Postings.POSITION_GAP c).length := by
+    simpa [invert, invertWith] using hn
+  have hterm : (invert c).terms[n] = ((termsOf Gen.Postings.POSITION_GAP c)[n],
+      postingsOf Gen.Postings.POSITION_GAP c ((termsOf Gen.Postings.POSITION_GAP c)[n])) := by
+    simp [invert, invertWith]
+  obtain ⟨_, i, hget, hslice⟩ := C07_field_serializer (FieldSerializer.segmentTerms o c) h1 h2
+    (FieldSerializer.segmentTerms_docFreq o c G) n (by rw [hlen]; exact hn)
+  obtain ⟨r, hr, hts, hdf, hback⟩ := FieldSerializer.segmentTerms_get o c G n hn'
+  obtain ⟨r', hr', hlazy⟩ := FieldSerializer.segment_term_lazy o c G _ (List.getElem_mem hn')
+  have hrr : r' = r := Option.some.inj (hr'.symm.trans hr)
+  subst hrr
+  have hsl : FieldSerializer.sliceTerm (FieldSerializer.segmentFiles o c) i = Recorder.serializeTerm o r' := by
+    unfold FieldSerializer.segmentFiles; rw [hslice, hts]
+  have hidf : i.docFreq = (Recorder.serializeTerm o r').docFreq := by
+    rw [← hsl]; rfl
+  refine ⟨i, hget, ?_, ?_, ?_⟩
+  · rw [hidf, hdf, hterm]; rfl
+  · rw [hsl, hback, hterm]
+  · rw [hsl, hidf, hlazy, hterm]
+
 /-! ### field norms -/
 
 theorem fieldnorm_roundtrip (i : Nat) (hi : i < 256) :
@@ -656,6 +699,8 @@ example : JsonPositions.occs 1 [⟨[97], true, [⟨[1], 0, 1⟩, ⟨[2], 1, 1⟩
 example : Recorder.permuted [[[⟨[97], 0, 1⟩]], [], [[⟨[98], 0, 1⟩]]] (fun j => 2 - j) =
     [[[⟨[98], 0, 1⟩]], [], [[⟨[97], 0, 1⟩]]] ∧
     (∀ i, i < 3 → (fun d => 2 - d) i < 3 ∧ (fun j => 2 - j) ((fun d => 2 - d) i) = i) := by decide
+example : (FieldSerializer.segmentFiles .freqs [[[⟨[97], 0, 1⟩, ⟨[98], 1, 1⟩]], [[⟨[97], 0, 1⟩]]]).infos.length = 2 ∧
+    (invert [[[⟨[97], 0, 1⟩, ⟨[98], 1, 1⟩]], [[⟨[97], 0, 1⟩]]]).terms.length = 2 := by decide +kernel
 example : Recorder.sortPostings ([⟨0, 1, [0]⟩, ⟨1, 2, [0, 2]⟩, ⟨2, 1, [4]⟩].map (Recorder.remapPosting (fun d => 2 - d))) =
     [⟨0, 1, [4]⟩, ⟨1, 2, [0, 2]⟩, ⟨2, 1, [0]⟩] := by decide
 example : BlockPostings.seekAll cfg (BlockPostings.open cfg .basic .basic 3 [129, 132, 132]) [0, 2, 9, 10] =
